@@ -191,8 +191,42 @@ func anyDoc(doc map[string]any) any {
 	return v
 }
 
+// c05Reentrant: one operator site is re-entered through recursion while its other operand is
+// still pending (per-site scratch state would show).
+func c05Reentrant(c *Case) {
+	arith := []string{"+", "-", "*", "/", "%"}
+	outer := []string{"+", "-", "*", "/", "%", "==", "!=", "<", "<=", ">", ">=", "&&", "||"}
+	n := V("n")
+	rec := func(d string) Expr { return CallE(V("r"), Bin("-", n, N(d))) }
+	run := func(name string, body Expr, base Expr) {
+		f := &Func{Name: "r", Params: []string{"n"}, Body: Blk(&If{C: Bin("<=", n, N("0")), Then: Blk(&Return{X: base})}, &Return{X: body})}
+		p := &Program{Items: []any{f, &Rule{Kind: "BEGIN", Body: Blk(Pr(S("#"), CallE(V("r"), N("1")), CallE(V("r"), N("4")), CallE(V("r"), N("7"))))}}}
+		c.NonTrivial("reentrant:" + name)
+		c.Count("reentrant_sites")
+		m2(c, &M2Case{Prog: p, Budget: 200000, Desc: "operator site re-entered through recursion: " + name})
+	}
+	for _, o1 := range arith {
+		for _, o2 := range outer {
+			for _, k := range []string{"2", "3"} {
+				inner := &Paren{X: Bin(o1, n, N(k))}
+				run("(n"+o1+k+")"+o2+"r(n-1)", Bin(o2, inner, rec("1")), N("1"))
+				run("r(n-1)"+o2+"(n"+o1+k+")", Bin(o2, rec("1"), inner), N("1"))
+			}
+			run("(r(n-1)"+o1+"1)"+o2+"r(n-2)", Bin(o2, &Paren{X: Bin(o1, rec("1"), N("1"))}, rec("2")), N("2"))
+			run("(r(n-2)"+o1+"n)"+o2+"(r(n-1)"+o1+"2)", Bin(o2, &Paren{X: Bin(o1, rec("2"), n)}, &Paren{X: Bin(o1, rec("1"), N("2"))}), N("3"))
+		}
+	}
+	// string building
+	run("('/'+n)+r(n-1)", Bin("+", &Paren{X: Bin("+", S("/"), n)}, rec("1")), S("."))
+	run("r(n-1)+(n+'/')", Bin("+", rec("1"), &Paren{X: Bin("+", n, S("/"))}), S("."))
+	run("(n+'')<r(n-1)", Bin("<", &Paren{X: Bin("+", n, S(""))}, rec("1")), S("3"))
+	run("('a'+n)~r(n-1)", Bin("~", &Paren{X: Bin("+", S("a"), n)}, rec("1")), S("a"))
+	run("-(n*2)+r(n-1)", Bin("+", &Unary{Op: "-", X: &Paren{X: Bin("*", n, N("2"))}}, rec("1")), N("0"))
+	run("!(n%2)==r(n-1)", Bin("==", &Unary{Op: "!", X: &Paren{X: Bin("%", n, N("2"))}}, rec("1")), &BoolLit{V: true})
+}
+
 func c05Cases(tier string) int {
-	n := len(c05BinOps)*len(c05Grid) + (3+len(c05IsTypes))*1 + len(c05BinOps) + 1
+	n := len(c05BinOps)*len(c05Grid) + (3+len(c05IsTypes))*1 + len(c05BinOps) + 1 + len(c05BinOps) + 1
 	if tier == "thorough" {
 		n += 4000
 	} else {
@@ -329,6 +363,33 @@ func c05Run(c *Case) {
 		p := &Program{Items: []any{c05Fn(), &Rule{Kind: "BEGIN", Body: &Block{Stmts: stm}}}}
 		m2(c, &M2Case{Prog: p, Budget: 50000, Desc: "short circuit"})
 		return
+	case i < nb+3+len(c05IsTypes)+len(c05BinOps)+1+len(c05BinOps):
+		// a prefix operator directly on a parenthesised binary expression: !(l op r), -(l op r)
+		op := c05BinOps[i-(nb+3+len(c05IsTypes)+len(c05BinOps)+1)]
+		for li, l := range c05Grid {
+			for ri, r := range c05Grid {
+				for mode := 0; mode < 2; mode++ {
+					x := c05Expr{doc: map[string]any{}}
+					le, ok1 := supply(l, mode, fmt.Sprintf("l%d_%d_%d", li, ri, mode), &x.setup, x.doc)
+					re, ok2 := supply(r, mode, fmt.Sprintf("r%d_%d_%d", li, ri, mode), &x.setup, x.doc)
+					if !ok1 || !ok2 {
+						continue
+					}
+					pre := "!"
+					if (li+ri)%3 == 0 {
+						pre = "-"
+					}
+					x.e = &Unary{Op: pre, X: &Paren{X: Bin(op, le, re)}}
+					x.id = fmt.Sprintf("%s(%s|%s|%s)|m%d", pre, l.name, op, r.name, mode)
+					x.key = x.id
+					c.Count("prefix_on_parenthesised:" + pre + op)
+					exprs = append(exprs, x)
+				}
+			}
+		}
+	case i == nb+3+len(c05IsTypes)+len(c05BinOps)+1+len(c05BinOps):
+		c05Reentrant(c)
+		return
 	default:
 		// sampled: random doubles and strings through every arithmetic / comparison / match operator
 		rng := c.Rng
@@ -375,7 +436,7 @@ func c05Run(c *Case) {
 func init() {
 	register(&Prop{
 		ID: "C05", Level: "exploration",
-		Rule:          "enumerated: every binary operator x every ordered pair of grid values (10 numbers, 10 strings, both bools, null, unset, 2 arrays, 2 objects, 2 regexes, user function, native) x supply mode (literal, variable, document field); every unary operator and every `is` form x every grid value x mode; x op x on one variable; short-circuit with a counting right operand; sampled: random doubles/strings. A case is one (operator, left value) row; distinct_nontrivial counts distinct (operator, left value, right value, mode) points, every point of the table being non-trivial.",
+		Rule:          "enumerated: every binary operator x every ordered pair of grid values (10 numbers, 10 strings, both bools, null, unset, 2 arrays, 2 objects, 2 regexes, user function, native) x supply mode (literal, variable, document field); every unary operator and every `is` form x every grid value x mode; x op x on one variable; short-circuit with a counting right operand; `!` / `-` written directly on a parenthesised binary expression for every operator x ordered pair of grid values (literal and variable); 400 recursive functions whose return expression re-enters one operator site while its other operand is pending ((n o1 k) o2 r(n-1), mirrored, two recursive calls, string building); sampled: random doubles/strings. A case is one (operator, left value) row; distinct_nontrivial counts distinct (operator, left value, right value, mode) points, every point of the table being non-trivial.",
 		NumCases:      c05Cases,
 		Run:           c05Run,
 		MinConclusive: func(tier string) int { return 400 },
